@@ -2063,6 +2063,28 @@ fn stream<const B: usize, const L: usize, E: std::fmt::Debug>(inp: &[u8], f: imp
     })
 }
 
+/// Container shapes: the input under test is the LAST element of a container whose leading bytes
+/// (`prefix`: a length / tag and valid all-zero elements) are valid; the outcome is that of the last
+/// element, with the consumed length counted from the start of `inp`. Every other element must be zero.
+fn stream_last<const B: usize, const L: usize, E: std::fmt::Debug>(prefix: &[u8], inp: &[u8], f: impl FnOnce(&mut &[u8]) -> Result<Vec<U<B, L>>, E>) -> Out<B, L> {
+    catch_loc(|| {
+        let buf = [prefix, inp].concat();
+        let mut s = &buf[..];
+        let r = f(&mut s);
+        let used = buf.len() - s.len();
+        match r {
+            Ok(v) => {
+                let (last, init) = v.split_last().expect("container decoded to no element (harness bug)");
+                if init.iter().any(|x| x.as_limbs().iter().any(|l| *l != 0)) {
+                    return Err("leading zero element decoded to a non-zero value".to_string());
+                }
+                Ok((*last, used.checked_sub(prefix.len())))
+            }
+            Err(e) => Err(format!("{e:?}")),
+        }
+    })
+}
+
 fn show_ref(r: &Ref) -> String {
     match &r.exp {
         Exp::Val { v, consumed, canon } => format!("value {} consumed {:?} canonical {}", hex(v), consumed, canon),
@@ -2279,6 +2301,14 @@ fn body_scale_fixed<const B: usize, const L: usize>(c: &Case, rec: &mut Rec) -> 
     let inp_s = || hx(inp);
     let o = stream(inp, |s| U::<B, L>::decode(s).map_err(|e| e.to_string()));
     judge(rec, &Cx { check: "scale_fixed", via: "try_from_le_slice", strict: false, hint: None }, o, &r, &inp_s)?;
+    // container shapes: the element's `decode_into` / `skip` / `encoded_fixed_size` hooks
+    let z = parity_scale_codec::Encode::encode(&U::<B, L>::ZERO);
+    let o = stream_last(&z, inp, |s| <[U<B, L>; 2]>::decode(s).map(|a| a.to_vec()));
+    judge(rec, &Cx { check: "scale_fixed_array2", via: "try_from_le_slice", strict: false, hint: None }, o, &r, &inp_s)?;
+    let o = stream_last(&[&[8u8][..], &z[..]].concat(), inp, |s| <Vec<U<B, L>>>::decode(s));
+    judge(rec, &Cx { check: "scale_fixed_vec", via: "try_from_le_slice", strict: false, hint: None }, o, &r, &inp_s)?;
+    let o = stream_last(&[&z[..], &[1u8][..]].concat(), inp, |s| <(U<B, L>, Option<U<B, L>>)>::decode(s).map(|t| vec![t.0, t.1.unwrap_or_default()]));
+    judge(rec, &Cx { check: "scale_fixed_tuple_option", via: "try_from_le_slice", strict: false, hint: None }, o, &r, &inp_s)?;
     Ok(())
 }
 
@@ -2337,6 +2367,23 @@ fn body_borsh<const B: usize, const L: usize>(c: &Case, rec: &mut Rec) -> R {
     }
     let o = whole(|| borsh::from_slice::<U<B, L>>(inp).map_err(|e| e.to_string()));
     judge(rec, &Cx { check: "borsh_from_slice", via: "try_from_le_slice", strict: false, hint: None }, o, &rw, &inp_s)?;
+    // container shapes: arrays and vectors go through the element type's bulk hooks
+    // (`array_from_reader`, `vec_from_reader`), tuples / Option / Box through `deserialize_reader`
+    // (not for BITS = 0: borsh itself refuses collections of zero-sized types)
+    if B == 0 {
+        return Ok(());
+    }
+    let z = vec![0u8; nb(B)];
+    let o = stream_last(&z, inp, |s| <[U<B, L>; 2]>::deserialize(s).map(|a| a.to_vec()));
+    judge(rec, &Cx { check: "borsh_array2", via: "try_from_le_slice", strict: false, hint: None }, o, &r, &inp_s)?;
+    let o = stream_last(&[z.clone(), z.clone()].concat(), inp, |s| <[U<B, L>; 3]>::deserialize(s).map(|a| a.to_vec()));
+    judge(rec, &Cx { check: "borsh_array3", via: "try_from_le_slice", strict: false, hint: None }, o, &r, &inp_s)?;
+    let o = stream_last(&[&2u32.to_le_bytes()[..], &z[..]].concat(), inp, |s| <Vec<U<B, L>>>::deserialize(s));
+    judge(rec, &Cx { check: "borsh_vec", via: "try_from_le_slice", strict: false, hint: None }, o, &r, &inp_s)?;
+    let o = stream_last(&[&z[..], &[1u8][..]].concat(), inp, |s| <(U<B, L>, Option<Box<U<B, L>>>)>::deserialize(s).map(|t| vec![t.0, t.1.map(|b| *b).unwrap_or_default()]));
+    judge(rec, &Cx { check: "borsh_tuple_option_box", via: "try_from_le_slice", strict: false, hint: None }, o, &r, &inp_s)?;
+    let o = stream_last(&z, inp, |s| <[Bits<B, L>; 2]>::deserialize(s).map(|a| a.iter().map(|b| b.into_inner()).collect()));
+    judge(rec, &Cx { check: "borsh_bits_array2", via: "try_from_le_slice", strict: false, hint: None }, o, &r, &inp_s)?;
     Ok(())
 }
 
